@@ -345,11 +345,17 @@ def run_impl(sc):
                             yield env.timeout(st['hold'])
                 else:
                     req = mk()
-                    ok = yield from waiting(req, st['patience'])
-                    if ok:
-                        if st['hold']:
-                            yield env.timeout(st['hold'])
-                        yield res.release(req)
+                    try:
+                        ok = yield from waiting(req, st['patience'])
+                        if ok:
+                            if st['hold']:
+                                yield env.timeout(st['hold'])
+                            yield res.release(req)
+                    except Interrupt:
+                        # a program that is interrupted gives back what it holds or asked for, as `with request:` would (an
+                        # interrupt for an *earlier* eviction can arrive here: two slots of one process evicted in one time step)
+                        req.__exit__(None, None, None)
+                        raise
             except Interrupt:
                 # preempted: leave the block (the with statement released / cancelled)
                 pass
